@@ -79,6 +79,7 @@ func H_C04_RoundTrip() {
 	}
 	vrt.Assert(m.Close() == nil, "roundtrip/mmap-close-no-error")
 	vrt.Assert(!vrt.Symbolic() || (fs.OpenHandles == 0 && fs.OpenMaps == 0), "roundtrip/everything-closed")
+	vNativeIncompressible(fs, comp)
 	vrt.Reach("roundtrip/end")
 }
 
@@ -370,10 +371,19 @@ func H_C04_Large() {
 func H_C04_SeekFakeMarker() {
 	fs := vrt.NewFS()
 	defer fs.Cleanup()
-	k := vrt.Range("ff", 0, 12)
 	payload := []byte{0x91, 0x8d, 0x4c, vrt.Byte("flag")}
-	for i := 0; i < k; i++ {
-		payload = append(payload, 0xff)
+	if vrt.Choose("shape", 2) == 0 {
+		k := vrt.Range("ff", 0, 12)
+		for i := 0; i < k; i++ {
+			payload = append(payload, 0xff)
+		}
+	} else {
+		// a complete header-like run with one-byte lengths whose checksum field is zero (no header of this shape
+		// has the checksum zero: the solver decides that over all flag and length bytes)
+		u, c := vrt.Byte("usize"), vrt.Byte("csize")
+		vrt.Assume(u < 128 && c < 128)
+		payload = append(payload, u, c, 0)
+		vrt.Tag("zero-checksum-field")
 	}
 	payload = append(payload, vrt.Byte("tail"))
 	recs := [][]byte{payload, {vrt.Byte("second")}}
